@@ -377,7 +377,9 @@ def _judge_finish(ctx, c, containers, initial, before, after, complete, suffix, 
             continue
         seen.add(mech)
         _violation(ctx, mech, 'the finish of container %d (%s) removed an entry it had not registered' % (c.idx, c.name),
-                   dict(container=c.idx, removed=_items(foreign), registered_by_its_start=_items(c.delta, 40)), case)
+                   dict(container=c.idx, removed=_items(foreign), registered_by_its_start=_items(c.delta, 40),
+                        vips={o.idx: (o.vip, o.stage, getattr(o, 'via_run', None)) for o in containers},
+                        vip_released_by_interrupted_finish=c.vip_released_by_interrupted_finish), case)
     seen = set()
     for item in sorted(leaked):
         mech = 'left-after-finish:%s%s' % (oracle.label(item, c.state), suffix)
